@@ -105,6 +105,10 @@ def correspond(ctx: C.Ctx, cov: C.Coverage) -> List[C.Disagreement]:
                 "(quick) / 4 (thorough). Per object: writer output vs model enc, strict reader result vs model dec. non-trivial = "
                 "object has >=1 falsy leaf or depth>=2; distinct = by canonical value")
     lines, expect, index = [], [], []
+    # the adapter has been used in every other mode before (first thing in this process): see interfere()
+    objs = list(objs)
+    for _, o_, _ in objs[:4]:
+        interfere(o_)
     poly = ["poly", meta.IDENTIFIABLE_CLASSES + meta.SUBMODEL_ELEMENT_CLASSES]
     for i, obj, stats in objs:
         v = T.to_val(obj)
